@@ -2,9 +2,31 @@
 //!
 //! Nothing in this module is part of the public API of the crate.
 
+use std::cell::RefCell;
+use std::collections::HashMap;
+
 use tokio::io::{AsyncRead, AsyncWrite};
 
 /// In-memory transport accepted by `LdapConnAsync::verif_from_io()`.
 pub trait VerifIo: AsyncRead + AsyncWrite + Send + std::fmt::Debug {}
 
 impl<T: AsyncRead + AsyncWrite + Send + std::fmt::Debug> VerifIo for T {}
+
+thread_local! {
+    static MAPS: RefCell<(Vec<i32>, Vec<i32>)> = const { RefCell::new((Vec::new(), Vec::new())) };
+}
+
+/// Routing-map gauge: called by the connection driver at the top of every loop turn.
+pub(crate) fn observe_maps<R, S>(resultmap: &HashMap<i32, R>, searchmap: &HashMap<i32, S>) {
+    let mut r: Vec<i32> = resultmap.keys().copied().collect();
+    let mut s: Vec<i32> = searchmap.keys().copied().collect();
+    r.sort_unstable();
+    s.sort_unstable();
+    MAPS.with(|m| *m.borrow_mut() = (r, s));
+}
+
+/// Sorted keys of the single-result and search routing maps as last seen by the
+/// driver running on this thread.
+pub fn routing_maps() -> (Vec<i32>, Vec<i32>) {
+    MAPS.with(|m| m.borrow().clone())
+}
